@@ -162,6 +162,9 @@ c.requires('job-is-a-job', lambda c: And(isa['AbstractJob'](c.a.job), isa['Windo
 _NOT_RUNNING = ('job-not-running-at-entry', lambda c: Not(c.pre.f('_running', c.a.job)))
 c.requires(*_NOT_RUNNING)
 c.entry_requires = [_NOT_RUNNING]
+c.assumed = ['entry precondition of the wrapper (the job is not running) is checked where its task is created and assumed '
+             'stable until its first step: nothing of the coroutine runs in between (A-NO-EAGER) and nobody else writes '
+             'this job\'s _running (rely of the wrapper)']
 
 
 def _wrapped_rely(c):
